@@ -695,6 +695,33 @@ def ref_delimited(s, mn, mx, trail):
     return items, pos
 
 
+def counted_shared_intexpr():
+    """an explicit int_expr object that the caller also uses elsewhere: counted_array must work on its own copy (the reference
+    definition of the helper - leading count, then exactly that many items - does not depend on who else uses the count expression)"""
+    import pyparsing as pp
+
+    def run(f):
+        try:
+            return f()
+        except Exception as e:
+            return "raises " + type(e).__name__
+    integer = lambda: pp.Word("0123456789").set_parse_action(lambda t: int(t[0]))
+    out = []
+    i1 = integer()
+    out.append(("items are the count expression itself", run(lambda: pp.counted_array(i1, int_expr=i1).parse_string("2 5 7").as_list()), [5, 7]))
+    i2 = integer()
+    two = pp.counted_array(pp.Word("ab"), int_expr=i2) + pp.counted_array(pp.Word("cd"), int_expr=i2)
+    out.append(("two arrays share the count expression", run(lambda: two.parse_string("2 a b 1 c").as_list()), ["a", "b", "c"]))
+    i3 = integer()
+    after = pp.counted_array(pp.Word("ab"), int_expr=i3) + i3
+    out.append(("the count expression is used again after the array", run(lambda: after.parse_string("1 a 42").as_list()), ["a", 42]))
+    i4 = integer()
+    before = (i4.name, len(i4.parseAction))
+    pp.counted_array(pp.Word("ab"), int_expr=i4)
+    out.append(("the caller's int_expr object is left untouched", (i4.name, len(i4.parseAction)), before))
+    return out
+
+
 def ref_counted(s):
     m = re.match(r"[ \t\n\r]*(\d+)", s)
     if not m:
@@ -797,6 +824,11 @@ def part_e(ctx, info):
         if got != want:
             viol(ctx, "counted:%r" % s, "counted_array on %r gives %r, expected %r" % (s, got, want), {"kind": "counted", "s": s})
         ca_impl.append(got)
+    for name, got, want in counted_shared_intexpr():
+        ctx.case(("counted-shared", name), nontrivial=True, agreed=True)
+        if got != want:
+            viol(ctx, "counted-shared:%s" % name, "counted_array with an int_expr that is also used elsewhere (%s): %r, expected %r" % (name, got, want),
+                 {"kind": "counted-shared"})
     exprs.append("map (fun s => match fst (counted_array str c_count c_word skip_ws None s) with Some (l, r) => Some (l, length r) | None => None end) [%s]"
                  % "; ".join(vlib.coq_str(x) for x in ca_strs))
     try:
@@ -929,6 +961,9 @@ def replay(ctx, obj):
         want = None if want is None else (want[0], skipws_from(r["s"], want[1]))
         bad = None if got == want else ("", "DelimitedList(min=%r,max=%r,trailing=%r) on %r gives %r, expected %r" % (
             r["min"], r["max"], r["trail"], r["s"], got, want))
+    elif k == "counted-shared":
+        badl = [(n, g, w) for n, g, w in counted_shared_intexpr() if g != w]
+        bad = None if not badl else ("", "; ".join("%s: %r, expected %r" % x for x in badl))
     elif k == "counted":
         got, want = run_at0(pp.counted_array(pp.Word("ab")), r["s"]), ref_counted(r["s"])
         bad = None if got == want else ("", "counted_array on %r gives %r, expected %r" % (r["s"], got, want))
